@@ -1,12 +1,149 @@
-import TapkeeVerif.Model.Knn
-import TapkeeVerif.Model.VpTree
-/-! Property C02 — theorems (work in progress; see Proofs/Knn*.lean). -/
-namespace TapkeeVerif.Knn
+import Mathlib.Algebra.Order.Group.Abs
+import Mathlib.Algebra.Order.Group.Int
+import TapkeeVerif.Proofs.KnnBrute
+import TapkeeVerif.Proofs.KnnVpBuild
+import TapkeeVerif.Proofs.KnnCover
+/-!
+# Property C02 — all three neighbour searches return exactly the k nearest other samples
 
-/-- the oracle the driver evaluates is the specification -/
-theorem isExactKnn_iff {α K : Type} [DecidableEq α] [DecidableEq K] [LE K] [DecidableLE K]
-    (δ : α → α → K) (pts : List α) (k : Nat) (i : α) (l : List α) :
+Subjects: the models of `include/tapkee/neighbors/{neighbors,vptree}.hpp` in `Model/Knn.lean`,
+`Model/VpTree.lean` (the code as of the fixes F-KNN-DUP bc2ea82, F-COVER-TIES 372b1de).
+Quantifiers are real: any sample type `α`, any number of samples (`pts : List α`, distinct *indices*,
+repeated *samples* allowed — a metric may vanish off the diagonal), any `k < N`, any scalar type `K` that
+is a linearly ordered additive group (ℤ, ℚ, ℝ, dyadic doubles without rounding), every outcome of
+`std::nth_element` / `std::partial_sort` / `priority_queue::pop` allowed by the postconditions, every
+vantage-point stream.
+
+`IsExactKnn δ pts k i l` : `l` has exactly `k` distinct entries, all samples other than `i`, and the
+sorted distances from `i` to them are the `k` smallest of the sorted distances from `i` to all others.
+-/
+namespace TapkeeVerif.Knn
+open TapkeeVerif.VpTree
+
+section
+variable {α K : Type} [DecidableEq α] [LinearOrder K]
+
+/-- the oracle the driver evaluates on implementation output is the specification -/
+theorem isExactKnn_iff (δ : α → α → K) (pts : List α) (k : Nat) (i : α) (l : List α) :
     isExactKnn δ pts k i l = true ↔ IsExactKnn δ pts k i l := by
   simp [isExactKnn]
+
+/-- **brute force is exact** for every admissible outcome of `std::nth_element`, every `k < N`, and every
+    callback under which no sample is nearer to the query than the query itself (every metric, every
+    kernel-induced distance) — repeated samples included. -/
+theorem brute_exact {δ : α → α → K} {pts : List α} {k : Nat} {i : α} {l : List α}
+    (hpts : pts.Nodup) (hi : i ∈ pts) (hk : k < pts.length)
+    (hself : ∀ j ∈ pts, δ i i ≤ δ i j) (h : BruteOut δ pts k i l) : IsExactKnn δ pts k i l :=
+  brute_exact' hpts hi hk hself h
+
+/-- the executable model instance (stable sort for `nth_element`) is one of the admissible outcomes -/
+theorem bruteKnn_admissible (δ : α → α → K) (pts : List α) (k : Nat) (i : α) :
+    BruteOut δ pts k i (bruteKnn δ pts k i) := bruteKnn_out δ pts k i
+
+/-- Why the repair `popIfLonger` (F-KNN-DUP) is needed: on three coinciding samples there is an admissible
+    `nth_element` outcome for which the selection loop alone returns `k + 1 = 2` neighbours for `k = 1`. -/
+theorem bruteLoop_alone_not_exact :
+    IsNthElement recLt 2 (bruteRecords (fun _ _ : Nat => (0 : Nat)) [0, 1, 2] 2) [(0, 0), (1, 0), (2, 0)] ∧
+      ¬ IsExactKnn (fun _ _ : Nat => (0 : Nat)) [0, 1, 2] 1 2 (bruteLoop 2 1 [(0, 0), (1, 0), (2, 0)]) := by
+  refine ⟨⟨by decide, by decide, by decide⟩, by decide⟩
+
+/-- **cover-tree wrapper selection theorem** (`find_neighbors_covertree_impl` after the batch query): for
+    every outcome of `std::partial_sort` under a comparator refining the distance order, the returned list
+    is the exact k-NN list, provided the candidate set satisfies `CandsOk` (distinct samples, ≥ k besides the
+    query, nothing outside nearer than something inside — the property of `{j | δ i j ≤ (k+1)-th distance}`;
+    certificate-checked on every run for the sets the real query returns). -/
+theorem cover_wrapper_exact {δ : α → α → K} {lt : K × α → K × α → Bool} {pts : List α} {i : α} {k : Nat}
+    {cands l : List α} (hpts : pts.Nodup) (hc : CandsOk δ pts i k cands)
+    (hlt : ∀ a b : K × α, lt b a = false → a.1 ≤ b.1) (h : CoverOut δ lt i k cands l) :
+    IsExactKnn δ pts k i l :=
+  cover_wrapper_exact' hpts hc hlt h
+
+/-- the executable wrapper model (`std::pair`'s lexicographic `operator<`) is an admissible outcome and its
+    comparator refines the distance order -/
+theorem coverSelect_admissible [LinearOrder α] (δ : α → α → K) (i : α) (k : Nat) (cands : List α) :
+    CoverOut δ pairLt i k cands (coverSelect δ i k cands) ∧
+      ∀ a b : K × α, pairLt b a = false → a.1 ≤ b.1 :=
+  ⟨coverSelect_out δ i k cands, pairLt_refines⟩
+
+/-- Why the repair (F-COVER-TIES) is needed: taking the first `k+1` entries of the unsorted candidate set
+    `[2, 0, 1]` of query 1 (three collinear points, k = 1, a tie at the boundary) gives two neighbours. -/
+theorem cover_take_first_not_exact :
+    ¬ IsExactKnn (fun a b : Nat => if a ≤ b then b - a else a - b) [0, 1, 2] 1 1
+        (([2, 0, 1].take (1 + 1)).filter (fun j => j ≠ 1)) := by decide
+
+end
+
+section
+variable {α K : Type} [DecidableEq α] [LinearOrder K] [AddCommGroup K] [IsOrderedAddMonoid K]
+
+/-- **`vptree_build_inv`** : every tree the constructor can return — any vantage-point stream, any
+    `nth_element` outcome — satisfies the ball invariant (inner subtree within `threshold` of the vantage
+    point, outer subtree at least `threshold` away) and contains every item exactly once. -/
+theorem vptree_build_inv {cb : Cb α K} (hcb : CbOk cb) {items : List α} {t : Tree α K} (h : Built cb items t) :
+    TInv cb.dist t ∧ t.points.Perm items :=
+  built_inv hcb h
+
+/-- the executable `buildFromPoints` model returns an admissible tree for every draw stream -/
+theorem vptree_build_admissible {cb : Cb α K} (hcb : CbOk cb) (draws : List Nat) (pos : Nat) (items : List α) :
+    Built cb items (build cb draws items.length pos items).1 :=
+  build_built hcb draws items.length pos items (Nat.le_refl _)
+
+/-- **pruning soundness** : `search` on a tree with the ball invariant leaves in the heap `k` nearest samples
+    of the target (triangle inequality; `tau` only shrinks; admission is strict) -/
+theorem vptree_search_nearest {cb : Cb α K} {pop : List (α × K) → List (α × K)} (hm : IsMetric cb.dist)
+    {k : Nat} (hk : 1 ≤ k) (hpop : PopSpec pop) {t : Tree α K} (hT : TInv cb.dist t) (hnd : t.points.Nodup)
+    (hkN : k ≤ t.points.length) (q : α) :
+    IsKNearest cb.dist q t.points k ((search cb pop q k t ⟨none, []⟩).heap.map (·.1)) :=
+  search_nearest hm hk hpop hT hnd hkN
+
+/-- **`vptree_search_exact`** : `find_neighbors_vptree_impl` is exact for every metric callback, every
+    admissible tree, every heap tie-break, every `k < N`, repeated samples included. -/
+theorem vptree_search_exact {cb : Cb α K} {pop : List (α × K) → List (α × K)} (hm : IsMetric cb.dist)
+    (hcb : CbOk cb) (hpop : PopSpec pop) {pts : List α} {t : Tree α K} (hB : Built cb pts t) (hnd : pts.Nodup)
+    {i : α} (hi : i ∈ pts) {k : Nat} (hk : k < pts.length) :
+    IsExactKnn cb.dist pts k i (vpKnn cb pop t k i) :=
+  vp_exact' hm hcb hpop hB hnd hi hk
+
+/-- the executable heap (`pop` = remove the first maximal item) meets `priority_queue::pop`'s contract -/
+theorem popMaxFirst_admissible : PopSpec (popMaxFirst : List (α × K) → List (α × K)) := popMaxFirst_spec
+
+/-- **`three_methods_agree`** : for a metric callback the three searches return the same sorted distance
+    list for every sample — whatever the tie-breaks — namely the `k` smallest distances to the others. -/
+theorem three_methods_agree {cb : Cb α K} {pop : List (α × K) → List (α × K)} (hm : IsMetric cb.dist)
+    (hcb : CbOk cb) (hpop : PopSpec pop) {pts : List α} {t : Tree α K} (hB : Built cb pts t) (hnd : pts.Nodup)
+    {i : α} (hi : i ∈ pts) {k : Nat} (hk : k < pts.length)
+    {lb : List α} (hb : BruteOut cb.dist pts k i lb)
+    {lt : K × α → K × α → Bool} {cands lc : List α} (hc : CandsOk cb.dist pts i k cands)
+    (hlt : ∀ a b : K × α, lt b a = false → a.1 ≤ b.1) (hcov : CoverOut cb.dist lt i k cands lc) :
+    sortK (lb.map (cb.dist i)) = sortK ((vpKnn cb pop t k i).map (cb.dist i)) ∧
+      sortK (lc.map (cb.dist i)) = sortK ((vpKnn cb pop t k i).map (cb.dist i)) := by
+  have hself : ∀ j ∈ pts, cb.dist i i ≤ cb.dist i j := fun j _ => by rw [hm.self]; exact hm.nonneg i j
+  have h1 := (brute_exact hnd hi hk hself hb).2.2.2.2
+  have h2 := (vptree_search_exact hm hcb hpop hB hnd hi hk).2.2.2.2
+  have h3 := (cover_wrapper_exact hnd hc hlt hcov).2.2.2.2
+  exact ⟨h1.trans h2.symm, h3.trans h2.symm⟩
+
+end
+
+/-! ### non-vacuity: the hypotheses are met by a concrete instance (points on the integer line) -/
+
+/-- `|a - b|` on integers-as-naturals -/
+def lineDist (a b : Nat) : Int := |(a : Int) - (b : Int)|
+
+def lineCb : Cb Nat Int := ⟨lineDist, fun v a b => decide (lineDist v a < lineDist v b)⟩
+
+example : IsMetric lineDist :=
+  ⟨fun x => by simp [lineDist], fun x y => by simp only [lineDist]; exact abs_sub_comm _ _,
+   fun x y z => by simp only [lineDist]; exact abs_sub_le _ _ _⟩
+
+example : CbOk lineCb := fun v a b => by simp [lineCb]
+
+example : Built lineCb [0, 3, 5, 6, 10, 11] (build lineCb [7, 500000] 6 0 [0, 3, 5, 6, 10, 11]).1 :=
+  vptree_build_admissible (fun v a b => by simp [lineCb]) _ _ _
+
+example : ∀ j ∈ [0, 3, 5, 6, 10, 11], lineDist 3 3 ≤ lineDist 3 j := by decide
+
+/-- a candidate set with a tie at the boundary (query 1, k = 1: both 0 and 2 at distance 1) -/
+example : CandsOk (fun a b : Nat => if a ≤ b then b - a else a - b) [0, 1, 2] 1 1 [2, 0, 1] := by decide
 
 end TapkeeVerif.Knn
